@@ -29,25 +29,35 @@ def value_keys_read(term, atom='c') -> set:
 
 # ---------------------------------------------------------------------------------------------- constructors
 def component_kinds(prog):
-    """kind -> dict(fn=FunctionDef name, written={key: derives_from_param(bool)}, params=[...], site) for every function of
-    Circuit/components.py that returns Component(type='<kind>', ...)"""
+    """kind -> dict(fn=function name, written={key: derives_from_param(bool)}, params=[...], site, node) for every function of
+    Circuit/components.py whose VALUE is Component(type='<kind>', ...) -- read off the normal form of the function, so constructors that
+    delegate to shared helpers are followed"""
+    cache = prog.__dict__.setdefault('_kinds_cache', {})
+    if 'k' in cache: return cache['k']
     m = prog.mod(CP)
     kinds = {}
+    from ..terms import paths_of, Rec
     for name, node in m.defs.items():
-        if not isinstance(node, ast.FunctionDef): continue
+        if not isinstance(node, ast.FunctionDef) or name.startswith('_'): continue
         params = [a.arg for a in node.args.args + node.args.kwonlyargs]
-        for n in ast.walk(node):
-            if isinstance(n, ast.Call) and isinstance(n.func, ast.Name) and n.func.id == 'Component':
-                kw = {k.arg: k.value for k in n.keywords}
-                t = kw.get('type', n.args[0] if n.args else None)
-                if not (isinstance(t, ast.Constant) and isinstance(t.value, str)): continue
-                written = {}
-                val = kw.get('value', n.args[3] if len(n.args) > 3 else None)
-                if isinstance(val, ast.Dict):
-                    for k, v in zip(val.keys, val.values):
-                        if isinstance(k, ast.Constant):
-                            written[k.value] = any(isinstance(x, ast.Name) and x.id in params for x in ast.walk(v))
-                kinds[t.value] = {'fn': name, 'written': written, 'params': params, 'site': prog.site(m, node), 'node': node}
+        ev = Evaluator(prog)
+        try:
+            t = call_ref(ev, m, node, [A('§' + p) for p in params[:len(node.args.args)]], {p: A('§' + p) for p in params[len(node.args.args):]})
+        except Exception:
+            continue
+        leaves = [l for _, l in paths_of(t)]
+        recs = [l for l in leaves if isinstance(l, Rec) and l.cls == 'Component' and isinstance(l.f.get('type'), str)]
+        if not recs or len(recs) != len(leaves) or len({r.f['type'] for r in recs}) != 1: continue
+        written = {}
+        for r in recs:
+            val = r.f.get('value')
+            if isinstance(val, dict):
+                for k, v in val.items():
+                    kk = k.v if hasattr(k, 'v') else k
+                    if isinstance(kk, str):
+                        written[kk] = written.get(kk, False) or ("'§" in repr(tkey(v)))
+        kinds[recs[0].f['type']] = {'fn': name, 'written': written, 'params': params, 'site': prog.site(m, node), 'node': node}
+    cache['k'] = kinds
     return kinds
 
 
